@@ -96,7 +96,7 @@ class Verifier:
                         detail={'reason': 'function no longer exists under this name'})]
         t0 = time.time()
         try:
-            ex = self.ExecClass(self.reg, module_globals(qualname), qualname, c)
+            ex = getattr(c, 'exec_class', self.ExecClass)(self.reg, module_globals(qualname), qualname, c)
             ex.loop_ords = loops_of(node)
             ex.fn_node = node
             missing = [k for k in (getattr(c, 'loops', None) or {}) if k not in ex.loop_ords]
